@@ -135,6 +135,14 @@ GOLDEN = [
      bits(1, 8) + bits(12, 8) + bits(3, 8) + bits(1, 32), "op-assign-index-evaluated-twice"),
     ("golden-op-assign-plain", "pub fn main(z: u8) -> (u8, [u8; 2]) { let mut x = 5u8; x += 3u8; x <<= 1u8; let mut a = [1u8, 2u8]; a[1usize] *= 7u8; (x, a) }",
      bits(16, 8) + bits(1, 8) + bits(14, 8), None),
+    ("golden-op-assign-rhs-first", "pub fn main(z: u8) -> u8 { let mut a = 3u8; a += ({ a = 5u8; 1u8 }); a }",
+     bits(6, 8), "op-assign-index-evaluated-twice"),
+    ("golden-struct-literal-source-order", "struct S { a: u8, b: u8 }\npub fn main(z: u8) -> (u8, u8, u8) { let mut c = 1u8; let s = S { b: ({ c = c + 1u8; c }), a: ({ c = c * 2u8; c }) }; (s.b, s.a, c) }",
+     bits(2, 8) + bits(4, 8) + bits(4, 8), "struct-literal-fields-evaluated-in-name-order"),
+    ("golden-mul-literal-operand-once", "pub fn main(z: u8) -> (u8, u8, i8, i8) { let mut a = 0u8; let r = ({ a = a + 1u8; a }) * 3u8; let mut b = 0i8; let q = -2i8 * ({ b = b + 1i8; b }); (r, a, q, b) }",
+     bits(3, 8) + bits(1, 8) + bits(-2, 8) + bits(1, 8), None),
+    ("golden-assign-zero-sized", "pub fn main(z: u8) -> u8 { let mut a = [(); 3]; a[1usize] = (); 7u8 }",
+     bits(7, 8), None),
     ("golden-short-circuit", "pub fn main(z: u8) -> (bool, u8, bool, u8) { let mut x = 1u8; let r = false && ({ x = 9u8; true }); let mut y = 1u8; let s = true || ({ y = 9u8; false }); (r, x, s, y) }",
      "0" + bits(1, 8) + "1" + bits(1, 8), None),
     ("golden-assign-order", "pub fn main(z: u8) -> [u8; 3] { let mut a = [1u8, 2u8, 3u8]; a[{ a[1usize] = 7u8; 0usize }] = { a[2usize] = 9u8; 5u8 }; a }",
